@@ -60,7 +60,7 @@ pub struct Case {
 
 pub struct C01;
 
-pub const KINDS: [&str; 32] = [
+pub const KINDS: [&str; 33] = [
     "honest",
     "header-nonce",
     "header-field",
@@ -93,6 +93,7 @@ pub const KINDS: [&str; 32] = [
     "drop-reorg-back",
     "skip-boundary-blocks",
     "drop-sample",
+    "drop-last-sample",
 ];
 
 const LAST_NS: [u64; 6] = [1, 2, 3, 5, 10, 100];
@@ -521,6 +522,13 @@ fn apply(chain: &Chain, fork: &Chain, req: &packed::GetLastStateProof, honest: &
                 headers.drain(k..k + j);
             }
         }
+        "drop-last-sample" => {
+            // the sample right below the tail: the requested difficulties are densest there (edge of the "is a block missing
+            // between the samples and the last-n section" condition)
+            if !layout.sampled.is_empty() {
+                headers.remove(layout.reorg.len() + layout.sampled.len() - 1);
+            }
+        }
         "drop-sample" => {
             if !layout.sampled.is_empty() {
                 let k = layout.reorg.len() + idx(m.pos, layout.sampled.len());
@@ -596,7 +604,7 @@ impl Property for C01 {
             Tier::Quick => 260u16,
             Tier::Thorough => 600u16,
         };
-        let mutation = (prop_oneof![1 => Just(0u8), 20 => 1u8..26, 3 => Just(26u8), 8 => 27u8..32], any::<u16>(), any::<u8>(), any::<u64>(), prop::bool::weighted(0.4), prop::bool::weighted(0.6))
+        let mutation = (prop_oneof![1 => Just(0u8), 20 => 1u8..26, 3 => Just(26u8), 8 => 27u8..33], any::<u16>(), any::<u8>(), any::<u64>(), prop::bool::weighted(0.4), prop::bool::weighted(0.6))
             .prop_map(|(kind, pos, sub, val, remine, reprove)| Mutation { kind, pos, sub, val, remine, reprove });
         (any::<u64>(), 1u8..25, 1u8..30, prop_oneof![2 => Just(0u16), 3 => 1u16..200], 1u16..maxg, 0u8..6, prop::bool::weighted(0.2), prop_oneof![7 => Just(0u8), 1 => Just(1u8), 1 => Just(2u8), 3 => Just(3u8), 1 => Just(4u8), 3 => Just(5u8)], mutation)
             .prop_map(|(seed, n_epochs, maxlen, proven, growth, last_n, restart_before, situation, mutation)| Case {
